@@ -9,7 +9,9 @@ oracle/search : on the implementation, for every read-only call of a history: (i
                 adsorbate's thermodynamic state (opaque queries)
 """
 import io
+import json
 import random
+import sys
 
 import numpy as np
 import pandas as pd
@@ -225,69 +227,170 @@ def explore(rep, tier, seed):
     rep.assumptions += ['module-level caches (_LOADED kernels / reference curves) covered only by "second call equals first"']
 
 
-def opaque_queries(rep, tier, seed):
-    """purity + repeatability + fresh-twin equality for analyses that are not modelled"""
+# ---------------------------------------------------------------------------------------------------------------------
+# opaque analyses: every call = (kind of argument object, function); the reference outcome of each call is computed in a FRESH
+# PROCESS that does nothing else (so module-level state cannot hide a dependence on the query history), the checked run makes the
+# same calls in random order on shared objects of every kind (PointIsotherm, ModelIsotherm of several models) with default AND
+# non-default optional arguments.
+_PREL = [0.01, 0.03, 0.05, 0.08, 0.12, 0.16, 0.2, 0.25, 0.3, 0.4, 0.5, 0.6, 0.7, 0.8, 0.9, 0.95]
+
+
+def _objects():
     import pygaps
+    from pygaps.modelling import get_isotherm_model
+    nm, C = 5.0, 120.0
+    load = [nm * C * p / ((1 - p) * (1 - p + C * p)) for p in _PREL]
+    kw = dict(material='verif_c04', adsorbate='nitrogen', temperature=77.355, loading_basis='molar', loading_unit='mmol', material_basis='mass', material_unit='g')
+
+    def model(name, params, unit='bar'):
+        return pygaps.ModelIsotherm(model=get_isotherm_model(name, parameters=dict(params)), pressure_mode='absolute', pressure_unit=unit, **kw)
+    return {
+        'point_rel': lambda: pygaps.PointIsotherm(pressure=_PREL, loading=load, pressure_mode='relative', **kw),
+        'point_abs': lambda: mk_abs(pygaps, 3.0, 0.8),
+        'model_langmuir': lambda: model('Langmuir', {'n_m': 3.0, 'K': 0.8}),
+        'model_toth': lambda: model('Toth', {'n_m': 3.0, 'K': 0.8, 't': 0.7}),
+        'model_dsl': lambda: model('DSLangmuir', {'n_m1': 2.0, 'K1': 0.8, 'n_m2': 1.0, 'K2': 0.05}),
+        'model_langmuir_pa': lambda: model('Langmuir', {'n_m': 3.0, 'K': 0.8e-5}, 'Pa'),
+        'model_toth_pa': lambda: model('Toth', {'n_m': 3.0, 'K': 0.8e-5, 't': 0.7}, 'Pa'),
+    }
+
+
+def _calls():
     import pygaps.characterisation as pgc
     import pygaps.modelling as pgm
     import pygaps.iast as pgi
     import pygaps.parsing as pgp
+    PR = 'point_rel'
+    c = {
+        'area_BET': (PR, lambda i: pgc.area_BET(i)), 'area_BET_limits': (PR, lambda i: pgc.area_BET(i, p_limits=(0.04, 0.3))),
+        'area_langmuir': (PR, lambda i: pgc.area_langmuir(i)), 'area_langmuir_limits': (PR, lambda i: pgc.area_langmuir(i, p_limits=(0.02, 0.6))),
+        't_plot': (PR, lambda i: pgc.t_plot(i)), 't_plot_halsey_limits': (PR, lambda i: pgc.t_plot(i, thickness_model='Halsey', t_limits=(0.3, 0.6))),
+        'alpha_s': (PR, lambda i: pgc.alpha_s(i, reference_isotherm=i, reference_area=400.0)),
+        'dr_plot': (PR, lambda i: pgc.dr_plot(i)), 'da_plot': (PR, lambda i: pgc.da_plot(i, exp=2)), 'da_plot_limits': (PR, lambda i: pgc.da_plot(i, exp=3, p_limits=(0.01, 0.2))),
+        'psd_mesoporous': (PR, lambda i: pgc.psd_mesoporous(i, branch='ads')),
+        'psd_mesoporous_bjh_sphere': (PR, lambda i: pgc.psd_mesoporous(i, psd_model='pygaps-DH', pore_geometry='sphere', branch='ads', thickness_model='Halsey', p_limits=(0.2, 0.9))),
+        'psd_microporous': (PR, lambda i: pgc.psd_microporous(i)),
+        'psd_microporous_rycy': (PR, lambda i: pgc.psd_microporous(i, psd_model='RY', pore_geometry='cylinder', material_model='AlSiOxideIon', p_limits=(0.01, 0.5))),
+        'psd_dft': (PR, lambda i: pgc.psd_dft(i)),
+        'psd_dft_units': (PR, lambda i: pgc.psd_dft(i, kernel_units={'loading_unit': 'mol', 'material_unit': 'kg'}, bspline_order=2, p_limits=(0.02, 0.9))),
+        'initial_henry_slope': (PR, lambda i: pgc.initial_henry_slope(i, max_adjrms=0.5)),
+        'initial_henry_virial': (PR, lambda i: pgc.initial_henry_virial(i)),
+        'model_iso': (PR, lambda i: pgm.model_iso(i, model='BET').model.params),
+        'model_iso_guess': ('point_abs', lambda i: pgm.model_iso(i, model=['Langmuir', 'Henry', 'Toth']).model.name),
+        'to_json': (PR, lambda i: pgp.isotherm_to_json(i)), 'to_csv': (PR, lambda i: pgp.isotherm_to_csv(i)), 'to_aif': (PR, lambda i: pgp.isotherm_to_aif(i)),
+        'loading_at_cubic': (PR, lambda i: i.loading_at([0.22, 0.33], interpolation_type='cubic')),
+        'spreading_inside': (PR, lambda i: i.spreading_pressure_at(0.45)),
+        'pressure_abs': (PR, lambda i: i.pressure(pressure_mode='absolute', pressure_unit='bar')),
+        'whittaker_point': ('point_abs', lambda i: pgc.enthalpy_sorption_whittaker(i, model='Langmuir', loading=[0.5, 1.0])),
+        'whittaker_point_toth': ('point_abs', lambda i: pgc.enthalpy_sorption_whittaker(i, model='Toth', loading=[0.5, 1.0])),
+    }
+    for mk in ('model_langmuir', 'model_toth', 'model_dsl'):
+        if mk != 'model_dsl':
+            c['whittaker:' + mk] = (mk + '_pa', lambda i: pgc.enthalpy_sorption_whittaker(i, loading=[0.5, 1.0]))
+            c['to_json:%s_pa' % mk] = (mk + '_pa', lambda i: pgp.isotherm_to_json(i))
+        c['to_json:' + mk] = (mk, lambda i: pgp.isotherm_to_json(i))
+        c['to_csv:' + mk] = (mk, lambda i: pgp.isotherm_to_csv(i))
+        c['loading_at:' + mk] = (mk, lambda i: i.loading_at([0.3, 2.0], pressure_unit='kPa'))
+        c['pressure_at:' + mk] = (mk, lambda i: i.pressure_at([0.4, 1.1], loading_unit='mol', material_unit='kg'))
+        c['spreading:' + mk] = (mk, lambda i: i.spreading_pressure_at(0.5, pressure_unit='kPa'))
+        c['iast:' + mk] = (mk, lambda i: pgi.iast_point_fraction([i, _objects()['model_langmuir']()], [0.3, 0.7], 2.0))
+        c['area_BET:' + mk] = (mk, lambda i: pgc.area_BET(i))
+    return c
+
+
+def _summar(x):
+    if isinstance(x, dict):
+        return [[str(k), _summar(v)] for k, v in sorted(x.items(), key=lambda kv: str(kv[0])) if k not in ('limits',)]
+    if isinstance(x, (list, tuple, np.ndarray, pd.Series)):
+        arr = np.asarray(x)
+        if arr.dtype.kind in 'fiu':
+            return ['%.9g' % v for v in arr.astype(float).ravel().tolist()]
+        return [_summar(v) for v in list(x)]
+    if isinstance(x, (float, np.floating)):
+        return '%.9g' % float(x)
+    if hasattr(x, 'iso_id'):
+        return x.iso_id
+    return repr(x)[:200]
+
+
+def _obs_any(iso):
+    """everything observable of an isotherm of either class"""
+    if hasattr(iso, 'data_raw'):
+        return obs(iso)
+    m = iso.model
+    return (iso.iso_id, repr(sorted((k, repr(v)) for k, v in iso.to_dict().items())), tuple(sorted((k, repr(v)) for k, v in m.params.items())),
+            repr(m.pressure_range), repr(m.loading_range), repr(getattr(m, 'rmse', None)), tuple(sorted(k for k in vars(m))), str(iso))
+
+
+def _outcome(fn, obj):
+    import logging
+    logging.disable(logging.CRITICAL)
+    try:
+        return ['Ok', _summar(fn(obj))]
+    except Exception as e:  # noqa
+        return [vlib.exn_class(e), None]
+
+
+def child(name):
+    """entry point of the reference process: one call on a fresh object in a fresh interpreter"""
+    import warnings
+    warnings.simplefilter('ignore')
+    kind, fn = _calls()[name]
+    print('C04REF ' + json.dumps(_outcome(fn, _objects()[kind]())))
+
+
+def _references(names):
+    import subprocess
+    from concurrent.futures import ThreadPoolExecutor
+
+    def one(name):
+        r = subprocess.run([sys.executable, '-c', 'import sys; from props import c04; c04.child(sys.argv[1])', name], capture_output=True, text=True, timeout=600)
+        for line in r.stdout.split('\n'):
+            if line.startswith('C04REF '):
+                return json.loads(line[7:])
+        return ['NOREF', (r.stderr or r.stdout)[-300:]]
+    with ThreadPoolExecutor(12) as ex:
+        return dict(zip(names, ex.map(one, names)))
+
+
+def opaque_queries(rep, tier, seed):
+    """purity + repeatability + equality with the same call made in a fresh process, for analyses that are not modelled"""
+    import pygaps
+    import pygaps.characterisation as pgc
+    import pygaps.modelling as pgm
+    import pygaps.iast as pgi
+    import warnings
+    warnings.simplefilter('ignore')
     rnd = random.Random(seed + 3)
     n = 0
-    # a BET-like nitrogen isotherm at 77 K in relative pressure, mmol/g
-    prel = [0.01, 0.03, 0.05, 0.08, 0.12, 0.16, 0.2, 0.25, 0.3, 0.4, 0.5, 0.6, 0.7, 0.8, 0.9, 0.95]
-    nm, C = 5.0, 120.0
-    load = [nm * C * p / ((1 - p) * (1 - p + C * p)) for p in prel]
-
-    def mk():
-        return pygaps.PointIsotherm(pressure=prel, loading=load, material='verif_c04', adsorbate='nitrogen', temperature=77.355,
-                                    pressure_mode='relative', loading_basis='molar', loading_unit='mmol', material_basis='mass', material_unit='g')
-
-    def summar(x):
-        if isinstance(x, dict):
-            return tuple(sorted((k, summar(v)) for k, v in x.items() if k not in ('limits',)))
-        if isinstance(x, (list, tuple, np.ndarray, pd.Series)):
-            arr = np.asarray(x)
-            if arr.dtype.kind in 'fiu':
-                return tuple(np.round(arr.astype(float), 9).ravel().tolist())
-            return tuple(summar(v) for v in list(x))
-        if isinstance(x, float):
-            return round(x, 9)
-        if hasattr(x, 'iso_id'):
-            return x.iso_id
-        return repr(x)[:200]
-    calls = {
-        'area_BET': lambda i: pgc.area_BET(i), 'area_langmuir': lambda i: pgc.area_langmuir(i), 't_plot': lambda i: pgc.t_plot(i),
-        'dr_plot': lambda i: pgc.dr_plot(i), 'da_plot': lambda i: pgc.da_plot(i, exp=2),
-        'psd_mesoporous': lambda i: pgc.psd_mesoporous(i, branch='ads'), 'psd_microporous': lambda i: pgc.psd_microporous(i),
-        'initial_henry_slope': lambda i: pgc.initial_henry_slope(i, max_adjrms=0.5),
-        'model_iso': lambda i: pgm.model_iso(i, model='BET').model.params,
-        'to_json': lambda i: pgp.isotherm_to_json(i), 'to_csv': lambda i: pgp.isotherm_to_csv(i), 'to_aif': lambda i: pgp.isotherm_to_aif(i),
-        'loading_at_cubic': lambda i: i.loading_at([0.22, 0.33], interpolation_type='cubic'),
-        'spreading_inside': lambda i: i.spreading_pressure_at(0.45),
-        'pressure_abs': lambda i: i.pressure(pressure_mode='absolute', pressure_unit='bar'),
-    }
-    names = list(calls)
-    for trial in range(6 if tier == 'quick' else 40):
-        iso = mk()
+    calls = _calls()
+    names = sorted(calls)
+    refs = _references(names)
+    noref = [k for k, v in refs.items() if v[0] == 'NOREF']
+    if noref:
+        rep.cov.setdefault('notes', []).append('no reference process result for %r: %r' % (noref[:3], refs[noref[0]][1]))
+    rep.cov['opaque_reference_outcomes'] = {}
+    for k, v in refs.items():
+        rep.cov['opaque_reference_outcomes'][v[0]] = rep.cov['opaque_reference_outcomes'].get(v[0], 0) + 1
+    for trial in range(4 if tier == 'quick' else 30):
+        objs = {k: mk() for k, mk in _objects().items()}
         order = rnd.sample(names, len(names))
+        if trial % 2:   # some calls repeated later in the history
+            order += rnd.sample(names, len(names) // 3)
         for k, name in enumerate(order):
+            kind, fn = calls[name]
+            iso = objs[kind]
             n += 1
-            before = obs(iso)
-            try:
-                r1 = ('Ok', summar(calls[name](iso)))
-            except Exception as e:  # noqa
-                r1 = (vlib.exn_class(e), None)
-            if obs(iso) != before:
-                rep.failure('C04:unclassified:not-pure:%s' % name, 'analysis %s changed the isotherm passed to it' % name, {'analysis': name, 'history': order[:k + 1], 'kind': 'not-pure'})
-            try:
-                r0 = ('Ok', summar(calls[name](mk())))
-            except Exception as e:  # noqa
-                r0 = (vlib.exn_class(e), None)
-            if r0 != r1:
+            before = _obs_any(iso)
+            r1 = _outcome(fn, iso)
+            if _obs_any(iso) != before:
+                rep.failure('C04:unclassified:not-pure:%s' % name, 'analysis %s changed the %s passed to it' % (name, kind),
+                            {'analysis': name, 'object': kind, 'history': order[:k + 1], 'kind': 'not-pure'})
+                objs[kind] = _objects()[kind]()
+            if refs[name][0] != 'NOREF' and json.loads(json.dumps(r1)) != refs[name]:
                 tag = 'C04:unclassified:history-dependent:%s' % name
-                rep.failure(tag, 'analysis %s returns something else after %r than on a fresh isotherm' % (name, order[:k]),
-                            {'analysis': name, 'history': order[:k + 1], 'kind': 'history-dependent', 'after': str(r1)[:300], 'fresh': str(r0)[:300]})
+                rep.failure(tag, 'analysis %s returns something else after %r than in a fresh process' % (name, order[max(0, k - 6):k]),
+                            {'analysis': name, 'object': kind, 'history': order[:k + 1], 'kind': 'history-dependent', 'after': str(r1)[:300], 'fresh': str(refs[name])[:300]})
     # Whittaker on a PointIsotherm (absolute pressure in bar)
     pabs = [0.05, 0.1, 0.2, 0.4, 0.7, 1.0, 1.5, 2.0, 3.0, 5.0]
     lo = [3.0 * 0.8 * p / (1 + 0.8 * p) for p in pabs]
@@ -368,6 +471,21 @@ def replay(d):
         q = r['history'][-1]
         q = tuple(tuple(x) if isinstance(x, list) else x for x in q)
         print('same call on a fresh isotherm ->', do_query(c03.build(init, tag='f'), q))
+    elif 'analysis' in r and isinstance(r.get('history'), list) and r.get('object'):
+        calls = _calls()
+        objs = {k: mk() for k, mk in _objects().items()}
+        bad = 0
+        for name in r['history']:
+            kind, fn = calls[name]
+            before = _obs_any(objs[kind])
+            out = _outcome(fn, objs[kind])
+            if _obs_any(objs[kind]) != before:
+                print('NOT PURE:', name, 'changed its', kind); bad = 1
+        ref = _references([r['analysis']])[r['analysis']]
+        print('after the history :', str(out)[:300]); print('fresh process     :', str(ref)[:300])
+        if json.loads(json.dumps(out)) != ref:
+            print('HISTORY-DEPENDENT'); bad = 1
+        return bad
     else:
         print(r)
     return 1
